@@ -431,7 +431,7 @@ def run(shard, tier, seed):
 
     @hypothesis.seed(env.subseed(seed, ID, shard["i"]))
     @settings(max_examples=n, deadline=None, database=None, suppress_health_check=list(hypothesis.HealthCheck), phases=[hypothesis.Phase.generate])
-    @given(st.randoms(use_true_random=False))
+    @given(st.randoms(use_true_random=True))
     def prop(rnd):
         case = gen_case(rnd, u)
         case["universe"] = shard["i"] % 4
